@@ -1504,3 +1504,53 @@ def path_facts(f, path):
             else:
                 atoms[key] = val
     return {'atoms': atoms, 'stores': stores, 'calls': calls, 'blocks': path}
+
+
+def value_on_path(f, path, local, pos=None, depth=0):
+    """expression of `local` as last defined along the block path (phi resolved by the path)"""
+    if depth > 30:
+        return f.expr_local(local)
+    if pos is None:
+        pos = (len(path), 0)
+    best = None
+    for pi in range(min(pos[0], len(path) - 1), -1, -1):
+        bb = path[pi]
+        b = f.blocks[bb]
+        stmts = list(enumerate(b['s']))
+        t = b['t']
+        if t['k'] == 'call' and t['dest']['l'] == local and not t['dest'].get('p') and (pi < pos[0]):
+            return _expr_with(f, path, ('call', bb), (pi, len(b['s'])), depth)
+        for si, s in reversed(stmts):
+            if pi == pos[0] and si >= pos[1]:
+                continue
+            if s['k'] == 'assign' and s['lhs']['l'] == local and not s['lhs'].get('p'):
+                return _expr_with(f, path, ('rv', s['rv']), (pi, si), depth)
+    return f.expr_local(local)
+
+
+def _expr_with(f, path, what, pos, depth):
+    def opnd(op):
+        if 'c' in op:
+            return f.expr_const(op['c'])
+        p = op.get('cp') or op.get('mv')
+        if p is None:
+            return ('other', '')
+        if p.get('p'):
+            return f.expr_place(p)
+        l = p['l']
+        if 1 <= l <= f.argc or l in f._localnames and l in f.mutable_locals():
+            return f.expr_local(l)
+        return value_on_path(f, path, l, pos, depth + 1)
+    if what[0] == 'rv':
+        rv = what[1]
+        k = rv['k']
+        if k == 'use':
+            return opnd(rv['op'])
+        if k == 'binop':
+            return ('binop', rv['op'], opnd(rv['a']), opnd(rv['b']))
+        if k == 'unop':
+            return ('unop', rv['op'], opnd(rv['a']))
+        if k == 'cast':
+            return ('cast', opnd(rv['op']), rv['ty'])
+        return f.expr_rvalue(rv)
+    return f.expr_call(what[1])
